@@ -173,21 +173,55 @@ Proof.
   - intros s l s' R Q Q' I H. eapply invE_step; eauto.
 Qed.
 
+(* the deferred re-check: once the call is done, its outcome is a panic (re-raised or "twice"), or
+   no panic was recorded when the deferred loop ended - and then none is recorded ever after, because
+   in calm runs output is only closed by the reducer's finish, after everybody's CAS *)
+Definition invF (s : state) : Prop :=
+  forall o, c s = CDone o ->
+    o = OPanicTwice \/ (exists p, o = OPanic p) \/ (wrote s = false /\ fin s = true).
+
+Lemma invF_step : forall cf s l s',
+  reachable cf s -> calm s -> calm s' -> invF s -> step cf s l = Some s' -> invF s'.
+Proof.
+  intros cf s l s' R Q Q' I H. unfold invF, calm in *.
+  destruct (invS_reach cf s R) as (I1 & I2 & I3 & I4 & I5 & _ & _ & I8).
+  destruct (invP_reach cf s R) as (_ & IP2 & _).
+  destruct s; sproj. destruct Q as (? & ?). subst.
+  open_step' l H.
+  all: try solve [destruct Q' as (? & ?); discriminate].
+  all: clear Q'.
+  all: try assumption.
+  all: intros o0 Ho; try discriminate Ho.
+  all: try solve [destruct (I _ Ho) as [X|[X|[X F]]]; auto].
+  all: try solve [inversion Ho; subst; eauto 6].
+  all: try solve [destruct (IP2 eq_refl); discriminate].
+  all: destruct (I _ Ho) as [X|[X|[_ F]]]; [left; exact X | right; left; exact X | exfalso].
+  all: destruct (I1 F) as [Y|Y]; try discriminate Y.
+  all: subst r; specialize (I2 eq_refl); specialize (I4 I2).
+  - destruct (I3 I2) as [Z|Z]; subst x; destruct (I8 eq_refl) as [U|[U|[U|U]]];
+      try discriminate U; try congruence; apply I5 in U; discriminate U.
+  - w_contra.
+Qed.
+
+Lemma invF_calm : forall cf s, reachable cf s -> calm s -> invF s.
+Proof.
+  intros cf. apply (calm_ind cf invF).
+  - intros _ o H. discriminate H.
+  - intros s l s' R Q Q' I H. eapply invF_step; eauto.
+Qed.
+
+
 Theorem panic_reraise : forall cf s o, reachable cf s -> ctxd s = false -> conce s = ONone ->
   wrote s = true -> c s = CDone o ->
-  (exists p, o = OPanic p /\ fpanic s = Some p) \/ (exists k, o = ORet k) \/ o = OPanicTwice.
+  (exists p, o = OPanic p /\ fpanic s = Some p) \/ o = OPanicTwice.
 Proof.
   intros cf s o R Q1 Q2 Wr Hc.
   assert (Ho : caller_outcome s = Some o) by (unfold caller_outcome; rewrite Hc; reflexivity).
   pose proof (result_sound cf s o R Ho) as S.
-  pose proof (invE_calm cf s R (conj Q1 Q2)) as E. unfold invE in E. rewrite Hc in E.
-  destruct o; simpl in *.
-  - right; left; eauto.
-  - exfalso. destruct S as [[_ S]|S]; [congruence|].
-    destruct (once_states cf s R) as [_ O]. apply O in Q2. congruence.
-  - exfalso. destruct (E eq_refl). congruence.
-  - left; eauto.
-  - right; right; reflexivity.
+  destruct (invF_calm cf s R (conj Q1 Q2) o Hc) as [X|[[p X]|[X _]]].
+  - right; exact X.
+  - subst o. left; eauto.
+  - congruence.
 Qed.
 
 Lemma In_writes : forall k a, In (RWrite k) a -> writes a <> [].
@@ -196,15 +230,22 @@ Proof.
   rewrite writes_app. simpl. destruct (writes l1); discriminate.
 Qed.
 
-Corollary panic_reraise_nowrite : forall cf s o, reachable cf s -> ctxd s = false ->
-  conce s = ONone -> wrote s = true -> c s = CDone o -> writes (rafter cf) = [] ->
+(* OPanicTwice needs two reducer writes *)
+Corollary panic_reraise_le1 : forall cf s o, reachable cf s -> ctxd s = false ->
+  conce s = ONone -> wrote s = true -> c s = CDone o -> List.length (writes (rafter cf)) <= 1 ->
   exists p, o = OPanic p /\ fpanic s = Some p.
 Proof.
   intros cf s o R Q1 Q2 Wr Hc W.
   assert (Ho : caller_outcome s = Some o) by (unfold caller_outcome; rewrite Hc; reflexivity).
   pose proof (result_sound cf s o R Ho) as S.
-  destruct (panic_reraise cf s o R Q1 Q2 Wr Hc) as [H|[[k ->]| ->]]; auto; exfalso.
-  - apply (In_writes _ _ S W).
-  - rewrite W in S. simpl in S. lia.
+  destruct (panic_reraise cf s o R Q1 Q2 Wr Hc) as [H| ->]; auto; exfalso.
+  simpl in S. lia.
 Qed.
 
+Corollary panic_reraise_nowrite : forall cf s o, reachable cf s -> ctxd s = false ->
+  conce s = ONone -> wrote s = true -> c s = CDone o -> writes (rafter cf) = [] ->
+  exists p, o = OPanic p /\ fpanic s = Some p.
+Proof.
+  intros cf s o R Q1 Q2 Wr Hc W. apply (panic_reraise_le1 cf s o R Q1 Q2 Wr Hc).
+  rewrite W. simpl. lia.
+Qed.
